@@ -64,14 +64,35 @@ theorem IntTy.neg_emin_le_emax {t : IntTy} {π : Policy} (w : t.WF π) (h : π.h
   generalize t.half = H at *
   layout_cases t π
 
+/-- a finite bound above the exact result, reported with `V_LT` under ROUND_UP -/
+theorem ok_bound_lt {t : IntTy} {π : Policy} (w : t.WF π) {dir : Dir} {s e : Int} (hf : t.finite π s)
+    (h : e < s) (hup : dir.roundUp = true) : OK t π dir (s, V_LT) (.fin e) := by
+  have hd := IntTy.denote_finite w hf
+  have hdir : dir = Dir.up := by simpa [Dir.roundUp] using hup
+  refine ⟨?_, ?_, ?_, IntTy.finite_inRange hf, ?_⟩
+  · simp [K4.holds, V_LT, hd, K4.relHolds, Rel.LT, Ext.lt, h]
+  · simp [K4.directed, V_LT, hd, Ext.le, Ext.lt, hdir]; left; exact h
+  · simp [K4.overflowHolds, V_LT]
+  · simp [V_LT]
+
+/-- a finite bound below the exact result, reported with `V_GT` under ROUND_DOWN -/
+theorem ok_bound_gt {t : IntTy} {π : Policy} (w : t.WF π) {dir : Dir} {s e : Int} (hf : t.finite π s)
+    (h : s < e) (hdn : dir.roundDown = true) : OK t π dir (s, V_GT) (.fin e) := by
+  have hd := IntTy.denote_finite w hf
+  have hdir : dir = Dir.down := by simpa [Dir.roundDown] using hdn
+  refine ⟨?_, ?_, ?_, IntTy.finite_inRange hf, ?_⟩
+  · simp [K4.holds, V_GT, hd, K4.relHolds, Rel.GT, Ext.lt, h]
+  · simp [K4.directed, V_GT, hd, Ext.le, Ext.lt, hdir]; left; exact h
+  · simp [K4.overflowHolds, V_GT]
+  · simp [V_GT]
+
 theorem addMul_ok {t : IntTy} {π : Policy} (w : t.WF π) (hl : t.LargerOK)
     (hco : π.checkOverflow = true) (dir : Dir) {to0 x y : Int} (h0 : t.finite π to0)
     (hx : t.finite π x) (hy : t.finite π y) :
     OK t π dir (addMul t π to0 x y dir) (.fin (to0 + x * y)) := by
   have hr0 := IntTy.finite_inRange h0
-  have hz : t.inRange 0 := by
-    obtain ⟨a, b⟩ := IntTy.emin_le_emax w
-    exact IntTy.finite_inRange (π := π) ⟨a, b⟩
+  obtain ⟨hmin, hmax⟩ := IntTy.emin_le_emax w
+  have hz : t.inRange 0 := IntTy.finite_inRange (π := π) ⟨hmin, hmax⟩
   unfold addMul
   rcases mul_tri w hl hco dir hz hx hy with ⟨e, hf⟩ | ⟨he, e⟩ | ⟨he, e⟩
   · rw [e]
@@ -83,13 +104,19 @@ theorem addMul_ok {t : IntTy} {π : Policy} (w : t.WF π) (hl : t.LargerOK)
       show ((-1 : Int) == -1) = true from rfl, if_true, Bool.false_eq_true, if_false]
     split
     · exact tri_ok w hr0 (tri_neg (by omega))
-    · exact ok_assignNan w dir hr0 rfl (Or.inl rfl)
+    · split
+      · rename_i hto hup
+        exact ok_bound_lt w ⟨by omega, by have := h0.2; omega⟩ (by omega) hup
+      · exact ok_assignNan w dir hr0 rfl (Or.inl rfl)
   · rw [e]
     simp only [resultOverflow_setPos, show ((1 : Int) == 0) = false from rfl,
       show ((1 : Int) == -1) = false from rfl, Bool.false_eq_true, if_false]
     split
     · exact tri_ok w hr0 (tri_pos (by omega))
-    · exact ok_assignNan w dir hr0 rfl (Or.inr (Or.inl rfl))
+    · split
+      · rename_i hto hdn
+        exact ok_bound_gt w ⟨by have := h0.1; omega, by omega⟩ (by omega) hdn
+      · exact ok_assignNan w dir hr0 rfl (Or.inr (Or.inl rfl))
 
 /-- **`sub_mul_int`** (as repaired by /repo 295149f) -/
 theorem subMul_ok {t : IntTy} {π : Policy} (w : t.WF π) (hl : t.LargerOK)
@@ -97,9 +124,8 @@ theorem subMul_ok {t : IntTy} {π : Policy} (w : t.WF π) (hl : t.LargerOK)
     (hx : t.finite π x) (hy : t.finite π y) :
     OK t π dir (subMul t π to0 x y dir) (.fin (to0 - x * y)) := by
   have hr0 := IntTy.finite_inRange h0
-  have hz : t.inRange 0 := by
-    obtain ⟨a, b⟩ := IntTy.emin_le_emax w
-    exact IntTy.finite_inRange (π := π) ⟨a, b⟩
+  obtain ⟨hmin, hmax⟩ := IntTy.emin_le_emax w
+  have hz : t.inRange 0 := IntTy.finite_inRange (π := π) ⟨hmin, hmax⟩
   have hge : t.signed = true → t.emax π ≤ -(t.emin π) := IntTy.neg_emin_ge_emax w
   have hle : -(t.emin π) ≤ t.emax π + 1 ∨ t.signed = false := by
     cases hs : t.signed
@@ -126,7 +152,14 @@ theorem subMul_ok {t : IntTy} {π : Policy} (w : t.WF π) (hl : t.LargerOK)
       cases hs : t.signed
       · have := hun hs; omega
       · have := hge hs; omega
-    · exact ok_assignNan w dir hr0 rfl (Or.inl rfl)
+    · split
+      · rename_i hto hdn
+        have h01 := h0.1; have h02 := h0.2
+        refine ok_bound_gt w ⟨by omega, ?_⟩ (by omega) hdn
+        rcases hle with h | h
+        · omega
+        · have := hun h; omega
+      · exact ok_assignNan w dir hr0 rfl (Or.inl rfl)
   · rw [e]
     simp only [resultOverflow_setPos, show ((1 : Int) == 0) = false from rfl,
       show ((1 : Int) == -1) = false from rfl, Bool.false_eq_true, if_false]
@@ -140,6 +173,17 @@ theorem subMul_ok {t : IntTy} {π : Policy} (w : t.WF π) (hl : t.LargerOK)
         · omega
         · have := hun h; omega
       · omega
-    · exact ok_assignNan w dir hr0 rfl (Or.inr (Or.inl rfl))
+    · split
+      · rename_i hc hup
+        simp only [Bool.and_eq_true, decide_eq_true_eq] at hup
+        simp only [Bool.or_eq_true, decide_eq_true_eq, Bool.and_eq_true, beq_iff_eq, not_or] at hc
+        have h02 := h0.2
+        have hsg : t.signed = true := by
+          cases hs : t.signed
+          · have := (hun hs).2; omega
+          · rfl
+        have := hge hsg
+        exact ok_bound_lt w ⟨by omega, by omega⟩ (by omega) hup.1
+      · exact ok_assignNan w dir hr0 rfl (Or.inr (Or.inl rfl))
 
 end PPLV.Checked
